@@ -559,13 +559,16 @@ class Ovld:
         for key, fn in list(self.defns.items()):
             self.register_signature(key, fn)
 
-        self.dispatch.__code__ = rename_code(dispatch.__code__, self.shortname)
+        # Everything the generated code needs first, the code itself last: a
+        # call made from another thread in between must still go through the
+        # trampoline (which ignores the defaults) and wait for the build
         self.dispatch.__kwdefaults__ = dispatch.__kwdefaults__
         self.dispatch.__annotations__ = dispatch.__annotations__
         self.dispatch.__defaults__ = dispatch.__defaults__
         self.dispatch.__globals__.update(dispatch.__globals__)
         self.dispatch.map = self.map
         self.dispatch.__doc__ = self.mkdoc()
+        self.dispatch.__code__ = rename_code(dispatch.__code__, self.shortname)
 
         self._compiled = True
 
